@@ -218,3 +218,88 @@ pub fn msm_perm_search(rng: &mut crate::Rng, budget: u64) -> Result<u64, (Vec<u8
     }
     Ok(n)
 }
+
+/// C16: SSR code-bias (1059, 1065) and GLONASS code-phase bias (1230) lists keep every entry or report an error.
+pub fn bias_search(rng: &mut crate::Rng, budget: u64) -> Result<u64, (Vec<u8>, String)> {
+    use rtcm_rs::msg::*;
+    let gps_sigs: [(u8, char); 12] = [(1, 'C'), (1, 'P'), (1, 'W'), (2, 'C'), (2, 'D'), (2, 'S'), (2, 'L'), (2, 'X'), (2, 'P'), (2, 'W'), (5, 'I'), (5, 'Q')];
+    let glo_sigs: [(u8, char); 4] = [(1, 'C'), (1, 'P'), (2, 'C'), (2, 'P')];
+    let mut n = 0u64;
+    let grid = |x: f32| -> i32 { (x / 0.01).round() as i32 };
+    while n < budget {
+        n += 1;
+        // ---- 1059
+        let nsat = [0usize, 1, 2, 5, 12, 32, 63, 64][rng.below(8)];
+        let per = [1usize, 2, 12, 12, 3][rng.below(5)];
+        let mut entries: Vec<(u8, usize, f32)> = vec![];
+        let mut sats: Vec<u8> = (0..64u8).collect();
+        for i in 0..sats.len() { let j = rng.below(sats.len()); sats.swap(i, j); }
+        'outer: for s in sats.iter().take(nsat) { let mut sig: Vec<usize> = (0..12).collect(); for i in 0..12 { let j = rng.below(12); sig.swap(i, j); }
+            for g in sig.iter().take(per) { if entries.len() >= 390 { break 'outer; } entries.push((*s, *g, ((rng.next() % 16000) as f32 - 8000.0) * 0.01)); } }
+        // scatter
+        if rng.below(2) == 0 { for i in 0..entries.len() { let j = rng.below(entries.len()); entries.swap(i, j); } }
+        let mut m = Msg1059T::default();
+        for (s, g, b) in &entries { m.biases.push(Msg1059CodeBias { satellite_id: *s, signal_id: GpsSigId::new(gps_sigs[*g].0, gps_sigs[*g].1), bias_m: *b }); }
+        let msg = Message::Msg1059(m);
+        let mc = msg.clone();
+        let r = std::panic::catch_unwind(move || { let mut b = MessageBuilder::new(); b.build_message(&mc).map(|x| x.to_vec()).map_err(|e| format!("{:?}", e)) });
+        match r {
+            Err(_) => return Err((vec![], format!("1059 encode panicked ({} satellites x {} signals)", nsat, per))),
+            Ok(Err(_)) => {}
+            Ok(Ok(f)) => {
+                let back = std::panic::catch_unwind(|| MessageFrame::new(&f).map(|x| x.get_message()).ok());
+                let back = match back { Ok(Some(Message::Msg1059(b))) => b, _ => return Err((f, "1059 frame emitted by the encoder does not decode to a 1059 message".into())) };
+                let mut want: Vec<(u8, u8, char, i32)> = entries.iter().map(|(s, g, b)| (*s, gps_sigs[*g].0, gps_sigs[*g].1, grid(*b))).collect();
+                let mut got: Vec<(u8, u8, char, i32)> = back.biases.iter().map(|e| (e.satellite_id, e.signal_id.band(), e.signal_id.attribute(), grid(e.bias_m))).collect();
+                let groups_ascending = got.windows(2).all(|w| w[0].0 <= w[1].0);
+                want.sort(); got.sort();
+                if want != got { return Err((f, format!("1059: {} entries encoded, {} decoded: entries lost, duplicated or changed (C16)", want.len(), got.len()))); }
+                if !groups_ascending { return Err((f, "1059: decoded entries are not grouped by ascending satellite".into())); }
+            }
+        }
+        // ---- 1065 (GLONASS, satellites 0..=31, 4 signals)
+        let nsat = [0usize, 1, 3, 24, 32][rng.below(5)];
+        let per = 1 + rng.below(4);
+        let mut entries: Vec<(u8, usize, f32)> = vec![];
+        let mut sats: Vec<u8> = (0..32u8).collect();
+        for i in 0..sats.len() { let j = rng.below(sats.len()); sats.swap(i, j); }
+        for s in sats.iter().take(nsat) { let mut sig: Vec<usize> = (0..4).collect(); for i in 0..4 { let j = rng.below(4); sig.swap(i, j); } for g in sig.iter().take(per) { entries.push((*s, *g, ((rng.next() % 16000) as f32 - 8000.0) * 0.01)); } }
+        if rng.below(2) == 0 { for i in 0..entries.len() { let j = rng.below(entries.len()); entries.swap(i, j); } }
+        let mut m = Msg1065T::default();
+        for (s, g, b) in &entries { m.biases.push(Msg1065CodeBias { satellite_id: *s, signal_id: GloSigId::new(glo_sigs[*g].0, glo_sigs[*g].1), bias_m: *b }); }
+        let msg = Message::Msg1065(m);
+        let r = std::panic::catch_unwind(move || { let mut b = MessageBuilder::new(); b.build_message(&msg).map(|x| x.to_vec()).map_err(|e| format!("{:?}", e)) });
+        match r {
+            Err(_) => return Err((vec![], "1065 encode panicked".into())),
+            Ok(Err(_)) => {}
+            Ok(Ok(f)) => {
+                let back = match std::panic::catch_unwind(|| MessageFrame::new(&f).map(|x| x.get_message()).ok()) { Ok(Some(Message::Msg1065(b))) => b, _ => return Err((f, "1065 frame does not decode to a 1065 message".into())) };
+                let mut want: Vec<(u8, u8, char, i32)> = entries.iter().map(|(s, g, b)| (*s, glo_sigs[*g].0, glo_sigs[*g].1, grid(*b))).collect();
+                let mut got: Vec<(u8, u8, char, i32)> = back.biases.iter().map(|e| (e.satellite_id, e.signal_id.band(), e.signal_id.attribute(), grid(e.bias_m))).collect();
+                let groups_ascending = got.windows(2).all(|w| w[0].0 <= w[1].0);
+                want.sort(); got.sort();
+                if want != got { return Err((f, format!("1065: {} entries encoded, {} decoded (C16)", want.len(), got.len()))); }
+                if !groups_ascending { return Err((f, "1065: decoded entries are not grouped by ascending satellite".into())); }
+            }
+        }
+        // ---- 1230: distinct recognised signals in any order
+        let k = rng.below(5);
+        let mut sig: Vec<usize> = (0..4).collect(); for i in 0..4 { let j = rng.below(4); sig.swap(i, j); }
+        let mut m = Msg1230T::default();
+        let mut want: Vec<(u8, char, i32)> = vec![];
+        for g in sig.iter().take(k) { let b = ((rng.next() % 60000) as f32 - 30000.0) * 0.02; m.glo_code_phase_biases.push(Msg1230CodePhaseBias { signal_id: GloSigId::new(glo_sigs[*g].0, glo_sigs[*g].1), bias_m: b }); want.push((glo_sigs[*g].0, glo_sigs[*g].1, (b / 0.02).round() as i32)); }
+        let msg = Message::Msg1230(m);
+        let r = std::panic::catch_unwind(move || { let mut b = MessageBuilder::new(); b.build_message(&msg).map(|x| x.to_vec()).map_err(|e| format!("{:?}", e)) });
+        match r {
+            Err(_) => return Err((vec![], "1230 encode panicked".into())),
+            Ok(Err(e)) => return Err((vec![], format!("1230 with distinct recognised signals refused: {}", e))),
+            Ok(Ok(f)) => {
+                let back = match std::panic::catch_unwind(|| MessageFrame::new(&f).map(|x| x.get_message()).ok()) { Ok(Some(Message::Msg1230(b))) => b, _ => return Err((f, "1230 frame does not decode to a 1230 message".into())) };
+                let got: Vec<(u8, char, i32)> = back.glo_code_phase_biases.iter().map(|e| (e.signal_id.band(), e.signal_id.attribute(), (e.bias_m / 0.02).round() as i32)).collect();
+                want.sort();
+                if got != want { return Err((f, format!("1230: decoded {:?}, expected the same set in table order {:?} (C16)", got, want))); }
+            }
+        }
+    }
+    Ok(n)
+}
